@@ -568,3 +568,16 @@ package factstore
 //@   ensures err != nil ==> !result && s.count == old(s.count)
 //@   ensures err == nil && result ==> s.count == old(s.count) + 1
 //@   ensures err == nil && !result ==> s.count == old(s.count)
+
+// ---- C06: removing an atom from the array store leaves the other buckets in place --------------------------------------
+// (This store keeps atoms with equal hashes apart in a bucket.) No bucket disappears, and buckets filed under another atom
+// hash are untouched. (That a bucket loses only the one matching element needs a separation invariant of the nested maps
+// that is not stated here.)
+//@ spec func bucketsKept(s *MultiIndexedArrayInMemoryStore, a ast.Atom, p ast.PredicateSym, i uint16, h uint64, k uint64, b []*ast.Atom) bool =
+//@      ainb(s, p, i, h, k) && (k != a.Hash() ==> abucket(s, p, i, h, k) == b)
+//@ func (s *MultiIndexedArrayInMemoryStore) removeAtom(a)
+//@   requires s != nil && len(a.Args) == a.Predicate.Arity && a.Predicate.Arity < 65536
+//@   opt nosafety
+//@   ensures forall p ast.PredicateSym, i uint16, h uint64, k uint64 :: old(ainb(s, p, i, h, k)) ==> bucketsKept(s, a, p, i, h, k, old(abucket(s, p, i, h, k)))
+//@   loop 1 invariant forall p ast.PredicateSym, i uint16, h uint64, k uint64 :: old(ainb(s, p, i, h, k)) ==> bucketsKept(s, a, p, i, h, k, old(abucket(s, p, i, h, k)))
+//@   loop 2 invariant forall p ast.PredicateSym, i uint16, h uint64, k uint64 :: old(ainb(s, p, i, h, k)) ==> bucketsKept(s, a, p, i, h, k, old(abucket(s, p, i, h, k)))
